@@ -55,6 +55,11 @@ class Engine(ExprMixin, ExprMixin2, StmtMixin, LoopMixin, CallMixin, CompMixin, 
         self._spec_cache = {}
         self.max_paths = 4000
         self.quant_goal = False
+        self.private_pred = None
+        self.back_edge_hook = None
+        self.unannotated_loops = []
+        # repo classes that get __iter__ from collections.abc.Sequence (index 0..len-1 through __getitem__): class -> backing list field
+        self.sequence_backing = {"fickle.Stack": "_stack", "fickle.StackedPickle": "pickled"}
         self._spec_mod = None
         self.enums = {}            # enum class -> member names (closed world)
         self.heap_axioms = []      # callables(engine, state) -> [z3 facts about the initial heap]
@@ -84,6 +89,11 @@ class Engine(ExprMixin, ExprMixin2, StmtMixin, LoopMixin, CallMixin, CompMixin, 
                 st.env[n] = V("param_func", xs=self.contracts[ty[5:]])
             else:
                 st.env[n] = self.fresh_of(ty, st, n)
+                v = st.env[n]
+                if v.t is not None and v.k in ("ref", "val"):
+                    st.old_ids.add(v.t.get_id())
+                    if v.k == "ref" and z3.is_app(v.t) and v.t.num_args() == 1:
+                        st.old_ids.add(v.t.arg(0).get_id())
         if c.closure_env:
             for n, v in c.closure_env(self, st).items():
                 st.env.setdefault(n, v)
@@ -140,6 +150,16 @@ class Engine(ExprMixin, ExprMixin2, StmtMixin, LoopMixin, CallMixin, CompMixin, 
                 raise Unsupported(f"{qual}: path ends with status {f.status}")
             res.effects += [e for e in f.log if e not in res.effects]
         res.obligations = self.obligations
+        tagged = {id(f) for f in finals if f.ghost.get("unannotated_loop")}
+        if any(f.ghost.get("unannotated_loop") for f in finals):
+            for o in res.obligations:
+                if "#path" in o.name:
+                    try:
+                        jj = int(o.name.rsplit("#path", 1)[1].split(".")[0].split("loop")[0] or -1)
+                    except ValueError:
+                        jj = -1
+                    if 0 <= jj < len(finals) and finals[jj].ghost.get("unannotated_loop"):
+                        o.meta["unannotated_loop"] = True
         res.final_states = finals
         res.gen_s = time.time() - t0
         self.obligations = []
@@ -232,7 +252,7 @@ class Engine(ExprMixin, ExprMixin2, StmtMixin, LoopMixin, CallMixin, CompMixin, 
         for m in c.modifies:
             allowed += self.footprint(m, f, entry)
         seen = set()
-        for comp, ref in f.writes[len(entry.writes):]:
+        for comp, ref, _origin in f.writes[len(entry.writes):]:
             if comp == "cls":
                 continue
             key = (comp, ref.get_id() if ref is not None else None)
@@ -267,6 +287,8 @@ class Engine(ExprMixin, ExprMixin2, StmtMixin, LoopMixin, CallMixin, CompMixin, 
             if o.k == "module":
                 return [(f"module:{o.cls}.{node.attr}", o.t)]
             ft = self.field_type(o.cls, node.attr) if o.cls else self.unique_field(node.attr)
+            if ft is None and node.attr in self.ast_field_names:
+                ft = ("ast", "val")
             return [(f"{ft[0]}.{node.attr}", self.as_ref(o, f))]
         finally:
             for k, t in f.H.items():
